@@ -31,9 +31,29 @@
 //     accepted; one that holds something is reported with Kind
 //     count_limit_zero_not_enforced (known finding) and then compared with the
 //     unlimited model for all other clauses.
-//   - SetAttributes / AddAttributes reorder the caller's slice in place; the
-//     statement does not forbid it, nothing is asserted about it. Every call
-//     gets freshly built values.
+//   - SetAttributes / AddAttributes reorder the caller's slice in place (and
+//     write truncated values into it) while the call runs; the statement does
+//     not forbid it, nothing is asserted about it. The arguments of a call are
+//     defined as what the argument slice holds when the call is made.
+//   - hostile caller: once a call has returned the record is independent of
+//     the caller's top-level argument slice ("holds each key once with the
+//     value supplied last" for EVERY edit sequence, "shares no mutable state"):
+//     arguments are lent in caller-owned slices (exact size, with spare
+//     capacity, one reused scratch buffer, or the very slice of the previous
+//     call - possibly for another record); a generated fraction of calls is
+//     followed by the caller scribbling over the whole slice including spare
+//     capacity, and at the end of every case the caller scribbles over every
+//     slice it ever passed. After every step each record other than the one
+//     the call was made on must return bit for bit (order included) what it
+//     returned before (Kind record_changed_without_call), and every record
+//     must equal its own model. The arrays behind SliceValue / MapValue /
+//     BytesValue are NOT scribbled: their constructors document "the passed
+//     slice must not be changed after it is passed", so nested sharing with
+//     the caller is the documented contract.
+//   - records that were handed the same values share the nested arrays of
+//     those values; the SDK re-applies limits / nested de-duplication in place
+//     when the values are offered again. All records of a case have the same
+//     limits, so this is idempotent; nothing beyond the final state is asserted.
 package c17
 
 import (
@@ -50,9 +70,21 @@ import (
 
 // Op is one step of the program.
 type Op struct {
-	Op  string `json:"op"`  // set | add | clone
+	Op  string `json:"op"`  // set | add | clone | new (a second, unrelated record with the same limits)
 	Rec int    `json:"rec"` // target record (modulo the number of records alive)
 	KVs []KVD  `json:"kvs,omitempty"`
+	// Arg says which caller-owned slice carries the arguments of a set/add:
+	//   ""        a freshly built slice of exactly the right size
+	//   "spare"   a fresh slice with Spare elements of spare capacity
+	//   "scratch" the caller's one scratch buffer, refilled (buf = append(buf[:0], ...))
+	//   "same"    the very slice (same memory, same length) the previous set/add
+	//             was given, with whatever it holds now; KVs is ignored
+	Arg   string `json:"arg,omitempty"`
+	Spare int    `json:"spare,omitempty"`
+	// Scribble > 0: right after the call returned the caller overwrites the
+	// whole slice including its spare capacity (1: key "a" everywhere,
+	// 2: zero KeyValues, 3: distinct junk keys).
+	Scribble int `json:"scribble,omitempty"`
 }
 
 // Case is one generated input.
@@ -61,10 +93,20 @@ type Case struct {
 	LenLimit   int    `json:"len_limit"`
 	Path       string `json:"path"`           // direct | emit
 	Emit       []KVD  `json:"emit,omitempty"` // attributes of the emitted API record (emit path)
-	Ops        []Op   `json:"ops"`
+	// EmitSpare / EmitScribble: the slice handed to the API record's
+	// AddAttributes has spare capacity / is scribbled over before Emit.
+	EmitSpare    int `json:"emit_spare,omitempty"`
+	EmitScribble int `json:"emit_scribble,omitempty"`
+	// EmitTwice: the same API record is emitted a second time after the
+	// first Emit returned (and after the program ran on the first SDK record).
+	EmitTwice bool `json:"emit_twice,omitempty"`
+	// Extra unrelated records (same limits) exist from the start, so that
+	// the program can hand one slice to several records right away.
+	Extra int  `json:"extra_records,omitempty"`
+	Ops   []Op `json:"ops"`
 }
 
-const maxRecords = 3
+const maxRecords = 4
 
 type obs struct {
 	kvs     []KVD
@@ -82,6 +124,65 @@ func observe(r *sdklog.Record) obs {
 	return o
 }
 
+// fingerprint is the bit-exact, ordered rendering of everything a record
+// returns about its attributes.
+func (o obs) fingerprint() string {
+	return fmt.Sprintf("%s len=%d dropped=%d", renderKVs(o.kvs), o.n, o.drop)
+}
+
+// fromKVs copies what a caller-owned slice holds right now into data.
+func fromKVs(kvs []log.KeyValue) []KVD {
+	out := make([]KVD, len(kvs))
+	for i, kv := range kvs {
+		out[i] = KVD{K: vk.Str(kv.Key), V: fromValue(kv.Value)}
+	}
+	return out
+}
+
+// scribble overwrites the whole slice including its spare capacity. Only the
+// top-level KeyValue elements are written: the arrays behind log.SliceValue /
+// MapValue / BytesValue "must not be changed after" they are passed (doc
+// comments of those constructors), so a well-behaved caller leaves them alone.
+func scribble(s []log.KeyValue, mode int) {
+	s = s[:cap(s)]
+	for i := range s {
+		switch mode {
+		case 1:
+			s[i] = log.Int("a", 9000+i)
+		case 2:
+			s[i] = log.KeyValue{}
+		default:
+			s[i] = log.Int(fmt.Sprintf("scribble%d", i), -i)
+		}
+	}
+}
+
+// withSpare builds a caller-owned slice holding kvs with spare elements of
+// spare capacity (pre-filled with a sentinel attribute).
+func withSpare(kvs []KVD, spare int) []log.KeyValue {
+	n := len(kvs)
+	s := make([]log.KeyValue, n+spare)
+	copy(s, toKVs(kvs))
+	for i := n; i < len(s); i++ {
+		s[i] = log.Int("spare!", i)
+	}
+	return s[:n]
+}
+
+type hostileFacts struct {
+	spare, scratch, scratchReused, same   bool
+	sameOtherRecord                       bool // the same slice went to two different records
+	scribbled                             bool
+	setKeptOverflow                       bool // one SetAttributes call kept more than 5 attributes
+	setOverflowScribbled                  bool // ... and its argument slice was scribbled over right away
+	setOverflowSameOther                  bool // ... and its argument slice was then handed to another record
+	setOverflowThenReuse                  bool // ... and its argument slice (the scratch buffer) was refilled for the next call
+	clones, fresh                         int
+	editedAfterFork                       map[int]bool
+	setAfterAdd, sawAdd                   bool
+	emitTwice, emitScribbled, finalSweeps bool
+}
+
 type runState struct {
 	c      Case
 	vs     []vk.Violation
@@ -89,8 +190,19 @@ type runState struct {
 	fatal  bool // a violation other than a suspended clause was recorded
 	recs   []*sdklog.Record
 	models []*model
+	fps    []string // fingerprint of every record after the latest step
 	vf     valueFacts
 	of     opFacts
+	hf     hostileFacts
+
+	// the caller's memory
+	scratch []log.KeyValue
+	last    []log.KeyValue   // slice given to the previous set/add
+	lent    [][]log.KeyValue // every slice ever handed to the library
+	// bookkeeping about the previous set/add (class labels only)
+	lastTarget      int
+	lastSetOverflow bool
+	lastWasScratch  bool
 }
 
 // suspended are the clauses behind a known finding: reported once per case,
@@ -164,14 +276,82 @@ func (s *runState) checkRecord(who string, o obs, m *model) {
 	}
 }
 
-func (s *runState) checkAll(step string) {
+// checkAll observes every record after a step: each must equal its own model,
+// and every record other than the one the step was a call on (touched, -1 for
+// none) must return bit for bit what it returned after the previous step -
+// whatever happened to other records and to the caller's memory.
+func (s *runState) checkAll(step string, touched int) {
 	for i, r := range s.recs {
-		s.checkRecord(fmt.Sprintf("after %s: record %d", step, i), observe(r), s.models[i])
+		o := observe(r)
+		fp := o.fingerprint()
+		if i < len(s.fps) {
+			if i != touched && s.fps[i] != fp {
+				s.bad("record_changed_without_call", "after %s: record %d changed although no call was made on it: returned %s, now returns %s", step, i, s.fps[i], fp)
+			}
+			s.fps[i] = fp
+		} else {
+			s.fps = append(s.fps, fp)
+		}
+		s.checkRecord(fmt.Sprintf("after %s: record %d", step, i), o, s.models[i])
 	}
+}
+
+// lend returns the caller-owned slice that carries the arguments of op.
+func (s *runState) lend(op Op, t int) []log.KeyValue {
+	h := &s.hf
+	var arg []log.KeyValue
+	wasScratch := false
+	switch {
+	case op.Arg == "same" && s.last != nil:
+		arg = s.last
+		h.same = true
+		if s.lastTarget != t {
+			h.sameOtherRecord = true
+			if s.lastSetOverflow {
+				h.setOverflowSameOther = true
+			}
+		}
+		wasScratch = s.lastWasScratch
+	case op.Arg == "scratch":
+		if s.scratch == nil {
+			s.scratch = withSpare(nil, 24)
+		} else {
+			h.scratchReused = true
+			if s.lastWasScratch && s.lastSetOverflow {
+				h.setOverflowThenReuse = true
+			}
+		}
+		arg = append(s.scratch[:0], toKVs(op.KVs)...)
+		h.scratch = true
+		wasScratch = true
+	case op.Arg == "spare":
+		arg = withSpare(op.KVs, op.Spare)
+		h.spare = true
+	default:
+		arg = toKVs(op.KVs)
+	}
+	s.lastWasScratch = wasScratch
+	return arg
 }
 
 // applyOps runs the program on s.recs / s.models (record 0 must exist).
 func (s *runState) applyOps() {
+	h := &s.hf
+	if h.editedAfterFork == nil {
+		h.editedAfterFork = map[int]bool{}
+	}
+	fresh := func() *sdklog.Record {
+		r := logtest.RecordFactory{AttributeCountLimit: s.c.CountLimit, AttributeValueLengthLimit: s.c.LenLimit}.NewRecord()
+		return &r
+	}
+	for i := 0; i < s.c.Extra && len(s.recs) < maxRecords; i++ {
+		s.recs = append(s.recs, fresh())
+		s.models = append(s.models, newModel(s.c.CountLimit))
+		h.fresh++
+	}
+	if s.c.Extra > 0 {
+		s.checkAll("creation of the extra records", -1)
+	}
 	for i, op := range s.c.Ops {
 		if s.fatal {
 			return
@@ -180,14 +360,44 @@ func (s *runState) applyOps() {
 		if t < 0 {
 			t = 0
 		}
-		step := fmt.Sprintf("op %d %s(rec %d, %d kvs)", i, op.Op, t, len(op.KVs))
+		touched := -1
+		step := fmt.Sprintf("op %d %s(rec %d)", i, op.Op, t)
 		switch op.Op {
-		case "set":
-			s.recs[t].SetAttributes(toKVs(op.KVs)...)
-			s.models[t].set(op.KVs, &s.of)
-		case "add":
-			s.recs[t].AddAttributes(toKVs(op.KVs)...)
-			s.models[t].add(op.KVs, &s.of)
+		case "set", "add":
+			arg := s.lend(op, t)
+			// The arguments of the call are what the slice holds when the
+			// call is made (for "same": whatever the previous call and the
+			// caller left in it).
+			offered := fromKVs(arg)
+			step = fmt.Sprintf("op %d %s(rec %d, %d kvs, arg %q, scribble %d)", i, op.Op, t, len(offered), op.Arg, op.Scribble)
+			if op.Op == "set" {
+				if h.sawAdd {
+					h.setAfterAdd = true
+				}
+				s.recs[t].SetAttributes(arg...)
+				s.models[t].set(offered, &s.of)
+			} else {
+				h.sawAdd = true
+				s.recs[t].AddAttributes(arg...)
+				s.models[t].add(offered, &s.of)
+			}
+			setOverflow := op.Op == "set" && len(s.models[t].keys) > 5
+			if setOverflow {
+				h.setKeptOverflow = true
+			}
+			s.last, s.lastTarget, s.lastSetOverflow = arg, t, setOverflow
+			s.lent = append(s.lent, arg)
+			if op.Scribble > 0 {
+				scribble(arg, op.Scribble)
+				h.scribbled = true
+				if setOverflow {
+					h.setOverflowScribbled = true
+				}
+			}
+			if len(s.recs) > 1 && len(offered) > 0 {
+				h.editedAfterFork[t] = true
+			}
+			touched = t
 		case "clone":
 			if len(s.recs) >= maxRecords {
 				continue
@@ -195,11 +405,35 @@ func (s *runState) applyOps() {
 			c := s.recs[t].Clone()
 			s.recs = append(s.recs, &c)
 			s.models = append(s.models, s.models[t].clone())
+			h.clones++
+		case "new":
+			if len(s.recs) >= maxRecords {
+				continue
+			}
+			s.recs = append(s.recs, fresh())
+			s.models = append(s.models, newModel(s.c.CountLimit))
+			h.fresh++
 		default:
 			panic("c17: unknown op " + op.Op)
 		}
-		s.checkAll(step)
+		s.checkAll(step, touched)
 	}
+}
+
+// finalSweep: at the end of the case the caller reuses all of its memory; no
+// record may notice.
+func (s *runState) finalSweep() {
+	if s.fatal || len(s.recs) == 0 {
+		return
+	}
+	for _, l := range s.lent {
+		scribble(l, 1)
+	}
+	if s.scratch != nil {
+		scribble(s.scratch, 3)
+	}
+	s.hf.finalSweeps = true
+	s.checkAll("the caller scribbled over every slice it ever passed", -1)
 }
 
 type editProc struct{ fn func(*sdklog.Record) }
@@ -226,23 +460,34 @@ func run(c Case) ([]vk.Violation, vk.Info) {
 		r := logtest.RecordFactory{AttributeCountLimit: c.CountLimit, AttributeValueLengthLimit: c.LenLimit}.NewRecord()
 		s.recs = []*sdklog.Record{&r}
 		s.models = []*model{newModel(c.CountLimit)}
-		s.checkAll("creation")
+		s.checkAll("creation", -1)
 		s.applyOps()
+		s.finalSweep()
 	case "emit":
 		calls := 0
+		var second []KVD // what the API record holds when it is emitted again
+		var m2 *model
 		proc := &editProc{fn: func(r *sdklog.Record) {
 			calls++
-			if calls > 1 {
-				return
+			switch calls {
+			case 1:
+				m := newModel(c.CountLimit)
+				for _, kv := range c.Emit {
+					m.add([]KVD{kv}, &s.of) // the logger adds them one by one
+				}
+				s.recs = []*sdklog.Record{r}
+				s.models = []*model{m}
+				s.checkAll("Emit", -1)
+				s.applyOps()
+			case 2:
+				m2 = newModel(c.CountLimit)
+				for _, kv := range second {
+					m2.add([]KVD{kv}, &s.of)
+				}
+				if !s.fatal {
+					s.checkRecord("second Emit of the same API record: record", observe(r), m2)
+				}
 			}
-			m := newModel(c.CountLimit)
-			for _, kv := range c.Emit {
-				m.add([]KVD{kv}, &s.of) // the logger adds them one by one
-			}
-			s.recs = []*sdklog.Record{r}
-			s.models = []*model{m}
-			s.checkAll("Emit")
-			s.applyOps()
 		}}
 		exp := &recExporter{}
 		p := sdklog.NewLoggerProvider(
@@ -254,22 +499,54 @@ func run(c Case) ([]vk.Violation, vk.Info) {
 		)
 		var rec log.Record
 		rec.SetBody(log.StringValue("c17"))
-		rec.AddAttributes(toKVs(c.Emit)...)
-		p.Logger("c17").Emit(context.Background(), rec)
-		_ = p.Shutdown(context.Background())
-		if calls != 1 || len(exp.got) != 1 {
-			s.bad("emit_delivery", "one Emit: processor called %d times, exporter received %d records", calls, len(exp.got))
-		} else if !s.fatal {
+		arg := withSpare(c.Emit, c.EmitSpare)
+		rec.AddAttributes(arg...)
+		s.lent = append(s.lent, arg)
+		if c.EmitScribble > 0 {
+			scribble(arg, c.EmitScribble)
+			s.hf.emitScribbled = true
+		}
+		lg := p.Logger("c17")
+		lg.Emit(context.Background(), rec)
+		want := 1
+		var fp0 string
+		if calls == 1 && len(exp.got) == 1 && !s.fatal {
 			// what the next processor / the exporter sees is the record as
 			// the first processor left it.
-			s.checkRecord("exported record", observe(&exp.got[0]), s.models[0])
+			o := observe(&exp.got[0])
+			fp0 = o.fingerprint()
+			s.checkRecord("exported record", o, s.models[0])
+		}
+		if c.EmitTwice && calls == 1 && !s.fatal {
+			want = 2
+			s.hf.emitTwice = true
+			rec.WalkAttributes(func(kv log.KeyValue) bool {
+				second = append(second, KVD{K: vk.Str(kv.Key), V: fromValue(kv.Value)})
+				return true
+			})
+			lg.Emit(context.Background(), rec)
+			if calls == 2 && len(exp.got) == 2 && !s.fatal {
+				s.checkRecord("second exported record", observe(&exp.got[1]), m2)
+			}
+		}
+		_ = p.Shutdown(context.Background())
+		if !s.fatal && (calls != want || len(exp.got) != want) {
+			s.bad("emit_delivery", "%d Emit: processor called %d times, exporter received %d records", want, calls, len(exp.got))
+		}
+		s.finalSweep()
+		if !s.fatal && fp0 != "" {
+			// the exporter's copy of the first record is retained output:
+			// nothing that happened afterwards may have changed it.
+			if fp := observe(&exp.got[0]).fingerprint(); fp != fp0 {
+				s.bad("record_changed_without_call", "the exporter's Clone of the first emitted record changed after it was exported: returned %s, now returns %s", fp0, fp)
+			}
 		}
 	default:
 		panic("c17: unknown path " + c.Path)
 	}
 
 	var info vk.Info
-	f, v := s.of, s.vf
+	f, v, h := s.of, s.vf, s.hf
 	overwrite := f.overwriteInline || f.overwriteOverflow
 	info.NonTrivial = overwrite || f.limitMidCall || v.nestedTruncated
 	info.Class("path=" + c.Path)
@@ -288,46 +565,39 @@ func run(c Case) ([]vk.Violation, vk.Info) {
 	info.ClassIf(v.multibyteFits, "bytes_over_limit_characters_within")
 	info.ClassIf(v.shortInvalidKept, "invalid_utf8_within_byte_limit_kept")
 	info.ClassIf(v.nestedDupMap, "held_value_offered_with_duplicate_nested_keys")
-	info.ClassIf(len(s.recs) > 1, "cloned")
-	overflowClone, setAfterAdd, sawAdd := false, false, len(c.Emit) > 0
-	nrec := 1
-	edited := map[int]bool{}
-	for _, op := range c.Ops {
-		if op.Op == "clone" {
-			if nrec < maxRecords {
-				nrec++
-			}
-			continue
-		}
-		if op.Op == "set" && sawAdd {
-			setAfterAdd = true
-		}
-		if op.Op == "add" {
-			sawAdd = true
-		}
-		if nrec > 1 && len(op.KVs) > 0 {
-			edited[op.Rec%nrec] = true
-		}
-	}
-	divergent := len(edited)
-	for _, m := range s.models {
-		if len(s.recs) > 1 && len(m.keys) > 5 {
-			overflowClone = true
-		}
-	}
-	info.ClassIf(divergent >= 2, "clone_and_original_both_edited")
-	info.ClassIf(overflowClone, "cloned_record_uses_overflow_slice")
-	info.ClassIf(setAfterAdd, "set_after_add")
+	info.ClassIf(h.clones > 0, "cloned")
+	info.ClassIf(h.fresh > 0, "second_unrelated_record")
+	info.ClassIf(len(h.editedAfterFork) >= 2, "two_or_more_records_edited_side_by_side")
+	overflowMulti := false
 	maxHeld := 0
 	nd := false
 	for _, m := range s.models {
+		if len(s.recs) > 1 && len(m.keys) > 5 {
+			overflowMulti = true
+		}
 		maxHeld = max(maxHeld, len(m.keys))
 		nd = nd || m.nestedDups > 0
 	}
+	info.ClassIf(overflowMulti, "several_records_one_uses_overflow_slice")
+	info.ClassIf(h.setAfterAdd, "set_after_add")
 	info.ClassIf(maxHeld > 5, "overflow_slice_used(>5 held)")
 	info.ClassIf(maxHeld == 5, "exactly_5_held")
 	info.ClassIf(nd, "non_counting_class(duplicate nested keys offered)")
 	info.ClassIf(!nd, "counting_class")
+	// the hostile caller
+	info.ClassIf(h.spare, "hostile:arg_slice_with_spare_capacity")
+	info.ClassIf(h.scratch, "hostile:arg_in_scratch_buffer")
+	info.ClassIf(h.scratchReused, "hostile:scratch_buffer_reused_for_a_later_call")
+	info.ClassIf(h.same, "hostile:same_slice_passed_again")
+	info.ClassIf(h.sameOtherRecord, "hostile:same_slice_passed_to_two_records")
+	info.ClassIf(h.scribbled, "hostile:slice_scribbled_right_after_call")
+	info.ClassIf(h.setKeptOverflow, "one_Set_keeps_>5_attributes")
+	info.ClassIf(h.setOverflowScribbled, "hostile:Set_keeping_>5_then_slice_scribbled")
+	info.ClassIf(h.setOverflowSameOther, "hostile:Set_keeping_>5_then_same_slice_to_other_record")
+	info.ClassIf(h.setOverflowThenReuse, "hostile:Set_keeping_>5_then_scratch_refilled")
+	info.ClassIf(h.setKeptOverflow && h.finalSweeps, "hostile:Set_keeping_>5_then_final_sweep")
+	info.ClassIf(h.emitScribbled, "hostile:api_record_arg_scribbled_before_emit")
+	info.ClassIf(h.emitTwice, "same_api_record_emitted_twice")
 	return s.vs, info
 }
 
@@ -342,7 +612,7 @@ var known = map[string]func(Case, vk.Violation) bool{
 func TestRecordModel(t *testing.T) {
 	vk.Run(t, vk.Spec[Case]{
 		Property: "C17", Check: "record_model",
-		Rule: "count limit in {-1,0,1,2,3,5,6,7,128} x length limit in {-1,0,1,3,8}; 1..12 SetAttributes/AddAttributes/Clone steps (0..10 kvs each, key alphabets of 2/7/12 keys + empty/invalid keys, every log.Value kind, nesting depth <= 3, hostile/invalid strings) on a logtest.RecordFactory record and up to two clones, compared after every step with an ordered-map-with-capacity model per record; " +
+		Rule: "count limit in {-1,0,1,2,3,5,6,7,128} x length limit in {-1,0,1,3,8}; 1..12 SetAttributes/AddAttributes/Clone/new-record steps (0..10 kvs each, key alphabets of 2/7/12 keys + empty/invalid keys, every log.Value kind, nesting depth <= 3, hostile/invalid strings) on a logtest.RecordFactory record and up to three more records (clones or unrelated ones), every record compared after every step with its own ordered-map-with-capacity model and with its previous fingerprint when the step was not a call on it; hostile caller: arguments lent in exact / spare-capacity / reused scratch / the previous call's very slice (also to another record), scribbled over after a generated fraction of calls and all of them at the end of the case; " +
 			"non-trivial = a later call overwrites a key that is already held, or the count limit is reached in the middle of a call, or a nested string is truncated",
 		Quick: 60000, Thorough: 600000,
 		Gen: func(t *rapidT) Case { return genCase(t, "direct", false) }, Run: run,
@@ -353,7 +623,7 @@ func TestRecordModel(t *testing.T) {
 func TestEmitModel(t *testing.T) {
 	vk.Run(t, vk.Spec[Case]{
 		Property: "C17", Check: "emit_model",
-		Rule: "same limits; an API log.Record carrying 0..12 attributes is emitted through a LoggerProvider configured with the limits (the SDK adds them one by one); the first processor checks the record, applies 0..8 further Set/Add/Clone steps inside OnEmit (checked after every step); a SimpleProcessor + recording exporter registered after it must see the same final record; " +
+		Rule: "same limits; an API log.Record carrying 0..12 attributes is emitted through a LoggerProvider configured with the limits (the SDK adds them one by one); the first processor checks the record, applies 0..8 further Set/Add/Clone/new-record steps inside OnEmit with the same hostile caller (checked after every step); a SimpleProcessor + recording exporter registered after it must see the same final record; the slice given to the API record is scribbled before Emit in a fraction of cases; in a third of the cases the same API record is emitted a second time and the exporter's Clone of the first record must not change; " +
 			"non-trivial = as for record_model",
 		Quick: 30000, Thorough: 300000,
 		Gen: func(t *rapidT) Case { return genCase(t, "emit", false) }, Run: run,
